@@ -192,6 +192,10 @@ def draw_history_op(ch, nd, tag):
 def apply_history_op(x, a):
     import symmray as sr
 
+    if a["op"] == "unfuse":
+        return x.unfuse(a["axis"])
+    if a["op"] == "self-add":
+        return x + x
     if a["op"] == "fuse":
         return x.fuse(*[tuple(g) for g in a["groups"]])
     if a["op"] == "reshape":
@@ -392,7 +396,8 @@ def law_context(ch):
 # ------------------------------------------------------------- schedules ----
 
 HOT = ("cached_fuse_block_info", "hashkey", "calc_fuse_block_info",
-       "calc_fuse_group_info", "hasher", "_fuse_core")
+       "calc_fuse_group_info", "hasher", "_fuse_core", "phase_sync",
+       "unfuse", "_binary_blockwise_op")
 
 
 def thread_ops(ch, x, y, nd, tag):
@@ -420,13 +425,29 @@ def law_schedule(ch):
         return
     nd = x.ndim
     nth = ch.integer(2, 4, "nthreads")
-    progs = [thread_ops(ch, x, None, nd, f"t{i}") for i in range(nth)]
-    if ch.boolean("same-op", p=0.5):
-        progs = [progs[0] for _ in range(nth)]
-    # sequential reference, history-free
+    if ch.boolean("shared-fused-lazy", p=0.3):
+        # the shared operand is a fused array that still carries lazy signs;
+        # the threads unfuse it / add to it out of place
+        grp = list(ch.perm(nd, "fgroup"))[:ch.integer(2, nd, "fk")]
+        x = must(lambda: x.fuse(tuple(grp)).conj(), what="fuse.conj")
+        ax = [i for i, ix in enumerate(x.indices) if ix.subinfo is not None]
+        if not ax:
+            return
+        progs = [[{"op": "unfuse", "axis": ax[0]}] +
+                 ([{"op": "self-add"}] if ch.boolean(f"t{i}.add") else [])
+                 for i in range(nth)]
+        nd = x.ndim
+    else:
+        progs = [thread_ops(ch, x, None, nd, f"t{i}") for i in range(nth)]
+        if ch.boolean("same-op", p=0.5):
+            progs = [progs[0] for _ in range(nth)]
+    # sequential reference, history-free (the operand's snapshot is taken
+    # first: also the reference run must leave it alone)
+    snap = snapshot(x)
     with no_caches():
         seq = [[attempt(apply_history_op, x, a) for a in p] for p in progs]
-    snap = snapshot(x)
+    require(snapshot(x) == snap, "schedule:operand-modified-sequentially",
+            lambda: snapshot_diff(snap, snapshot(x)))
     prefix = os.path.join(repo_root(), "symmray") + os.sep
     maxsize = ch.choice([1, 2, 8192, 0], "maxsize")
     reset_cache()
